@@ -2600,6 +2600,7 @@ class Engine(Interp, InterpOps, CallMixin, ZoneMixin):
         self.loop_info = {}
         self.unroll = 40
         self.layout_hook = None
+        self.keep_rf = None         # predicate: refinements of these terms survive state GC
         self.const_checks = []
         self._last_closure_ret = BOT
 
@@ -2943,8 +2944,9 @@ class Engine(Interp, InterpOps, CallMixin, ZoneMixin):
                         ok = False
                         break
             return ok
+        keep_rf = self.keep_rf
         for t in list(st.rf):
-            if t not in used and not alive(t):
+            if t not in used and not alive(t) and not (keep_rf is not None and keep_rf(t)):
                 del st.rf[t]
         for e in list(st.erf):
             if e not in eused and not (e[0] == 'e' and alive(('o', e[1]))):
